@@ -101,6 +101,7 @@ func (m *Manager) dial(ctx context.Context, addr, dialer string, c *connection) 
 	}
 	if err != nil {
 		log.Infof("Error creating gRPC connection to %q: %v", addr, err)
+		verifPoint("dial:failed")
 		m.mu.Lock()
 		m.remove(addr)
 		c.err = err
@@ -166,6 +167,7 @@ func (m *Manager) Connection(ctx context.Context, addr, dialer string) (conn *gr
 		c.ref++
 		m.mu.Unlock()
 
+		verifPoint("connection:joined")
 		<-c.ready
 		if c.err != nil {
 			return nil, func() {}, c.err
